@@ -463,6 +463,24 @@ example :
     cases hs
 
 set_option maxRecDepth 100000 in
+/-- non-vacuity of `batch_is_fetch_order`: same schedule; the fetch order is sorted, the consumer has finished, and what it
+returned is the fetch order `retOf` -/
+example : retOf 1 (reach witness [.run 0, .run 1]).pops = [wp1] := by
+  have hsorted : SortedBatch (reach witness [.run 0, .run 1]) 1 := by
+    have hp : (reach witness [.run 0, .run 1]).pops = [⟨0, 1, wp1, none, some 50, 100, true⟩] := by rfl
+    unfold SortedBatch
+    rw [hp]
+    simp [List.filter]
+  have hcl : (((reach witness [.run 0, .run 1]).sys.clients[1]?).map fun c => (c.started, c.op, c.pc)) =
+      some (true, .popMany 2, .done (.probes [wp1] 0)) := by rfl
+  cases hc : (reach witness [.run 0, .run 1]).sys.clients[1]? with
+  | none => rw [hc] at hcl; cases hcl
+  | some c =>
+    rw [hc] at hcl
+    simp only [Option.map_some, Option.some.injEq, Prod.mk.injEq] at hcl
+    exact (batch_is_fetch_order witness witness_init [.run 0, .run 1] 1 c 2 [wp1] 0 hc hcl.1 hcl.2.1 hcl.2.2 hsorted).symm
+
+set_option maxRecDepth 100000 in
 /-- the witness schedule violates exactly the side condition of `fetch_sorted_conc`: the second enqueue executes at clock 100
 with ready time 10 -/
 example : ¬ (∀ (k : Nat) (e : GEnq), (reach witness [.run 0, .step 1]).enqs.length ≤ k →
